@@ -30,6 +30,30 @@ pub enum MSt {
 
 const STATES: [MSt; 4] = [MSt::S0, MSt::S1, MSt::S2, MSt::S3];
 
+/// Used by corpus entries: a non-default base for struct update syntax, and a counter whose value
+/// tells how often an inline default expression was evaluated.
+#[allow(dead_code)]
+fn base_vals() -> MVals {
+    MVals { a: 9.5, b: -3.25, n: 41, k: 17 }
+}
+
+thread_local! {
+    static TICK: std::cell::Cell<i32> = const { std::cell::Cell::new(0) };
+}
+
+#[allow(dead_code)]
+fn reset_tick() {
+    TICK.with(|t| t.set(0));
+}
+
+#[allow(dead_code)]
+fn tick() -> i32 {
+    TICK.with(|t| {
+        t.set(t.get() + 1);
+        t.get()
+    })
+}
+
 /// Used by corpus entries whose default values are written as a function call.
 #[allow(dead_code)]
 fn make_vals(a: f32, b: f32, n: i32, k: u8) -> MVals {
